@@ -258,7 +258,7 @@ const HAND_WRITTEN: &[&str] = &[
     "<HasChild>1:foo", "<#HasChild>foo", "<!HasChild>foo", "<#!HasChild>foo", "<!#HasChild>foo", "<##HasChild>foo", "<0:HasChild>foo",
     "<1:HasChild>foo", "<00:HasChild>foo", "<65536:HasChild>foo", "<1:#x>foo", "<1:>foo", "<>foo", "<a>b>c", "<a&>b>c", "<HasChild>a&>b",
     "<HasChild", "<ab&.c", "<ab&/0:c", "abc", "abc/def", "abc<HasChild>x", "/a\nb", "<Has\nChild>x", "<HasChild>x\ny/z", "/a/b.c<HasChild>d",
-    "/foo&/bar", "/foo&&/bar", "/&&", "/é", "/1:€uro", "<1:Ünï>2:ö", "/0:a/0:b/0:c/0:d/0:e/0:f/0:g/0:h/0:i/0:j/0:k/0:l/0:m/0:n/0:o/0:p/0:q/0:r/0:s/0:t/0:u/0:v/0:w/0:x/0:y/0:z/0:A/0:B/0:C/0:D/0:E/0:F",
+    "/foo&/bar", "/foo&&/bar", "/&&", "&/a", "&.a", "&<HasChild>b", "&&/a", "&a/b", "<><a>b", "<>&<a>b", "x<a>b", "/é", "/1:€uro", "<1:Ünï>2:ö", "/0:a/0:b/0:c/0:d/0:e/0:f/0:g/0:h/0:i/0:j/0:k/0:l/0:m/0:n/0:o/0:p/0:q/0:r/0:s/0:t/0:u/0:v/0:w/0:x/0:y/0:z/0:A/0:B/0:C/0:D/0:E/0:F",
     "/0:a/0:b/0:c/0:d/0:e/0:f/0:g/0:h/0:i/0:j/0:k/0:l/0:m/0:n/0:o/0:p/0:q/0:r/0:s/0:t/0:u/0:v/0:w/0:x/0:y/0:z/0:A/0:B/0:C/0:D/0:E/0:F/0:G",
     "/0:a/0:b/0:c/0:d/0:e/0:f/0:g/0:h/0:i/0:j/0:k/0:l/0:m/0:n/0:o/0:p/0:q/0:r/0:s/0:t/0:u/0:v/0:w/0:x/0:y/0:z/0:A/0:B/0:C/0:D/0:E/0:F/0:G/0:H",
 ];
@@ -275,6 +275,13 @@ impl Prop for C05 {
             out.push(format!("parse {}", shex(s)));
             out.push(format!("parsenr {}", shex(s)));
             out.push(format!("elem {}", shex(s)));
+        }
+        // token length limit with the first / last scalar of each UTF-8 length as the last char: 256 and 257 bytes
+        for c in ['\u{7f}', '\u{80}', '\u{7ff}', '\u{800}', '\u{ffff}', '\u{10000}', '\u{10ffff}'] {
+            for total in [256usize, 257] {
+                out.push("reset".into());
+                out.push(format!("parse {}", shex(&format!("/{}{}", "a".repeat(total - 1 - c.len_utf8()), c))));
+            }
         }
         // token length limit: 255 / 256 / 257 bytes, ASCII and multi-byte
         for k in [253usize, 254, 255, 256] {
